@@ -169,6 +169,7 @@ def run(chk, prog):
                                % (tok, adt.rsplit('::', 1)[-1], v), f.loc(0))
         chk.floor(RD, 'compiler operator-token rows', n, 12)
 
+    origin_names_through_the_getter(chk, prog, tr)
     origins_rebuilt_on_push(chk, prog, tr, 'C07.origins-recomputed-on-push',
                             'StoryState::push_evaluation_stack rebuilds the origins of a list value from its items / origin '
                             'names: every push onto InkList::origins there is dominated by a clear of the same vector (or the '
@@ -208,6 +209,59 @@ def run(chk, prog):
                            'call_list_increment_operation steps an item in a list definition that is not selected by the '
                            'item\'s own origin name (selected by predicate: %s; name comparison present: %s)'
                            % (selected, cmp_ok), g_.loc(bb))
+
+
+def origin_names_through_the_getter(chk, prog, tr):
+    RG = 'C07.origin-names-through-the-getter'
+    chk.rule(RG, 'Which lists a list value belongs to is answered by InkList::get_origin_names (the lists of its items; '
+             'the stored names only when it has no items). The raw field initial_origin_names is read only by that '
+             'getter, its setter, the plain constructors and Clone: a copy / sub-range / assignment that hands on the raw '
+             'field gives a list emptied later the origins of some earlier value. Value::retain_list_origins_for_assignment '
+             'replaces the names of the new (empty) value only when the old value has some (tests is_empty on them).')
+    ALLOWED = {'<InkList as Clone>::clone', 'InkList::from_single_origin', 'InkList::set_initial_origin_names',
+               'InkList::get_origin_names', 'InkList::new', 'InkList::from_single_element'}
+
+    def touches(pl):
+        return any(pe['k'] == 'field' and pe.get('n') == 'initial_origin_names' for pe in (pl or {}).get('p', []))
+    n = 0
+    for fn in sorted(prog.fns.values(), key=lambda f: f.p):
+        if fn.crate != 'bladeink':
+            continue
+        hit = None
+        for bb, si, st in fn.stmts():
+            if st['k'] != 'assign':
+                continue
+            rv = st['rv']
+            pls = ([rv['pl']] if 'pl' in rv else []) + [o['pl'] for k in ('op', 'a', 'b') for o in [rv.get(k)]
+                                                         if isinstance(o, dict) and o.get('k') in ('copy', 'move')]
+            if any(touches(pl) for pl in pls):
+                hit = fn.loc(bb, si)
+        for bb, t in fn.calls():
+            if any(a['k'] in ('copy', 'move') and touches(a['pl']) for a in t['args']):
+                hit = hit or fn.loc(bb)
+        if hit:
+            n += 1
+            root = prog.root_fn(fn).short
+            chk.decide(RG, chk.key(RG, 'reader', root), root in ALLOWED,
+                       'one of the accessors of the field',
+                       '%s reads InkList::initial_origin_names directly: for a list that has items the field is stale '
+                       '(get_origin_names answers from the items), so the value built from it belongs to the wrong lists '
+                       'once it is emptied' % root, hit)
+    chk.floor(RG, 'readers of InkList::initial_origin_names', n, 3)
+    rl = prog.fn('Value::retain_list_origins_for_assignment')
+    if chk.anchor(RG, 'Value::retain_list_origins_for_assignment', rl):
+        from analysis.guards import resolve_cond as _rc
+        tested = False
+        for bb, t in rl.terms():
+            if t['k'] == 'switch':
+                c = _rc(prog, rl, t['d'], tr)
+                if c is not None and c.desc[0] == 'call' and c.desc[1].endswith('::is_empty') \
+                        and any('InkList::get_origin_names' in a for a in c.desc[2]):
+                    tested = True
+        chk.decide(RG, chk.key(RG, 'retain-only-existing-origins'), tested,
+                   'the old value\'s origin names are tested for emptiness before they replace the new value\'s',
+                   'retain_list_origins_for_assignment overwrites the origin of the new empty list even when the old '
+                   'value belongs to no list: `~ v = L()` over an untyped empty list loses L', rl.loc(0))
 
 
 def origins_rebuilt_on_push(chk, prog, tr, RE, text):
